@@ -1088,6 +1088,21 @@ pub fn run_random<C: OrdColl>(tr: &mut Trace, cfg: &RandCfg) {
             held.clear();
             in_seg = 0;
         }
+        if in_seg == 0 && cfg.keys >= 12 && s.snap_every <= 1 && rng.chance(1, 2) {
+            // some segments start from a monotone fill: ascending / descending insertion gives the
+            // longest spines a red-black tree can have, and a set is then walked end to end
+            let mut ks: Vec<i32> = (1..=cfg.keys).collect();
+            if rng.chance(1, 2) {
+                ks.reverse();
+            }
+            let n = rng.range(cfg.keys as i64 / 2, cfg.keys as i64) as usize;
+            for k in ks.into_iter().take(n) {
+                let v = s.next_value(k);
+                s.apply(&OOp::Ins { k, v }, 0);
+                done += 1;
+            }
+            s.walks();
+        }
         in_seg += 1;
         done += 1;
         if C::IS_SET && cfg.walk_den > 0 && rng.chance(1, cfg.walk_den) {
